@@ -134,6 +134,13 @@ type workload struct {
 	Build      func(d *driver.Driver, a arch.Type, p []int) benchmarks.Benchmark
 	NeedsMNIST bool
 	Runnable   bool // false: linked but cannot run here (reason in Admit)
+	// Shapes2D: for workloads whose kernels are launched with a 2-D grid,
+	// admissible parameter vectors that give tall (few work-group columns, many
+	// rows), wide, or large (> 256 work-groups) grids. The driver's unified
+	// multi-GPU launch path (work-group filter, per-GPU share) only shows what
+	// it does with such grids: a grid of <= 64 work-groups stays on the first
+	// GPU, a square one hides x/y mix-ups. Each entry notes columns x rows.
+	Shapes2D [][]int
 	// OracleBlind: the workload's Verify() does not look at the data read back
 	// (established by reading it and confirmed by the sabotage run of the
 	// thorough tier). Its runs are executed and counted, but they are not
@@ -245,6 +252,7 @@ func workloads() []*workload {
 				}
 				return ""
 			},
+			Shapes2D: [][]int{{136, 2}, {96, 3}}, // (node/8)^2: 17x17 = 289, 12x12 = 144 work-groups
 			Build: func(d *driver.Driver, a arch.Type, p []int) benchmarks.Benchmark {
 				b := floydwarshall.NewBenchmark(d)
 				b.NumNodes, b.NumIterations, b.Arch = uint32(p[0]), uint32(p[1]), a
@@ -261,6 +269,7 @@ func workloads() []*workload {
 			},
 			Cost:       func(p []int) int { return p[0] * p[1] * p[2] / 16 },
 			PlainMulti: true, Splits: true, UnifiedMem: true, TimingList: tlFull, Oracle: oVerify,
+			Shapes2D: [][]int{{32, 640, 64}, {32, 64, 640}}, // (z/32) x (y/32): 2x20, 20x2 (Verify looks at row 0 only)
 			Build: func(d *driver.Driver, a arch.Type, p []int) benchmarks.Benchmark {
 				b := matrixmultiplication.NewBenchmark(d)
 				b.Arch, b.X, b.Y, b.Z = a, uint32(p[0]), uint32(p[1]), uint32(p[2])
@@ -275,6 +284,7 @@ func workloads() []*workload {
 			Adm:        func(p []int, c class) bool { return p[0] > 0 && p[0]%(64*c.nPlain()) == 0 },
 			Cost:       func(p []int) int { return p[0] * p[0] / 4 },
 			PlainMulti: true, Splits: true, UnifiedMem: true, TimingList: tlFull, Oracle: oVerify,
+			Shapes2D: [][]int{{1280}, {1088}}, // (width/64)^2: 20x20 = 400, 17x17 = 289 work-groups
 			Build: func(d *driver.Driver, a arch.Type, p []int) benchmarks.Benchmark {
 				b := matrixtranspose.NewBenchmark(d)
 				b.Width, b.Arch = p[0], a
@@ -425,12 +435,6 @@ func workloads() []*workload {
 			Adm:        func(p []int, c class) bool { return p[0] >= 64 && p[0]%64 == 0 },
 			Cost:       func(p []int) int { return p[0] * p[0] * 4 },
 			PlainMulti: false, Splits: false, UnifiedMem: true, TimingList: tlNone, Oracle: oVerify,
-			Quar: func(p []int, c class) string {
-				if p[0] >= 192 {
-					return "three-or-more-blocks"
-				}
-				return ""
-			},
 			Build: func(d *driver.Driver, a arch.Type, p []int) benchmarks.Benchmark {
 				b := nw.NewBenchmark(d)
 				b.Arch = a
@@ -476,12 +480,6 @@ func workloads() []*workload {
 			Adm:        func(p []int, c class) bool { return p[0] >= 1 && p[0]*p[0]*p[1]/1000 >= 1 && p[1] <= 1000 },
 			Cost:       func(p []int) int { return p[0]*40 + p[0]*p[0]*p[1]/100 },
 			PlainMulti: true, Splits: false, UnifiedMem: true, TimingList: tlSPMV, Oracle: oVerify,
-			Quar: func(p []int, c class) string {
-				if c.Arch == "cdna3" && p[0] > 128 {
-					return "cdna3-more-than-one-work-group"
-				}
-				return ""
-			},
 			Build: func(d *driver.Driver, a arch.Type, p []int) benchmarks.Benchmark {
 				b := spmv.NewBenchmark(d)
 				b.Dim, b.Sparsity, b.Arch = int32(p[0]), float64(p[1])/1000, a
@@ -491,13 +489,14 @@ func workloads() []*workload {
 		{
 			Name: "stencil2d", Suite: "shoc", Archs: both,
 			ParamNames: []string{"row", "col", "iter"}, Anchor: []int{64, 64, 1}, AnchorSrc: "sample default (matrix passes no size)",
-			Sizes: [][]int{{16, 64, 1}, {32, 64, 2}, {64, 64, 1}, {16, 128, 1}, {48, 192, 2}},
+			Sizes: [][]int{{16, 64, 1}, {32, 64, 2}, {64, 64, 1}, {16, 128, 1}, {48, 192, 2}, {32, 1280, 1}, {320, 64, 1}},
 			Admit: "row multiple of 16, col multiple of 64: one work-item per interior column in groups of 64, 16 rows per group; StencilKernel derives the row pitch from get_num_groups(1)*64 and has no guard, the host launches (rows-2)/16 row groups (integer division)",
 			Adm: func(p []int, c class) bool {
 				return p[0] >= 16 && p[0]%16 == 0 && p[1] >= 64 && p[1]%64 == 0 && p[2] >= 1
 			},
 			Cost:       func(p []int) int { return p[0] * p[1] * p[2] * 30 },
 			PlainMulti: true, Splits: false, UnifiedMem: true, TimingList: tlFull, Oracle: oVerify,
+			Shapes2D: [][]int{{32, 1280, 1}, {32, 2048, 2}, {320, 64, 1}, {272, 128, 1}}, // work-groups (rows/16) x (cols/64): 2x20, 2x32, 20x1, 17x2
 			Build: func(d *driver.Driver, a arch.Type, p []int) benchmarks.Benchmark {
 				b := stencil2d.NewBenchmark(d)
 				b.Arch, b.NumIteration, b.NumRows, b.NumCols = a, p[2], p[0]+2, p[1]+2
@@ -550,7 +549,7 @@ func workloads() []*workload {
 		{
 			Name: "im2col", Suite: "dnn-layer", Archs: both,
 			ParamNames: []string{"n", "c", "h", "w", "k", "pad", "stride", "dilate"}, Anchor: []int{1, 1, 28, 28, 3, 0, 1, 1}, AnchorSrc: "sample default (not in the matrix)",
-			Sizes: [][]int{{1, 1, 3, 3, 3, 0, 1, 1}, {1, 2, 9, 9, 3, 1, 2, 1}, {1, 2, 9, 7, 3, 1, 2, 1}, {2, 1, 10, 10, 3, 1, 1, 2}, {1, 1, 28, 28, 3, 0, 1, 1}},
+			Sizes: [][]int{{1, 1, 3, 3, 3, 0, 1, 1}, {1, 2, 9, 9, 3, 1, 2, 1}, {1, 2, 9, 7, 3, 1, 2, 1}, {2, 1, 10, 10, 3, 1, 1, 2}, {1, 1, 28, 28, 3, 0, 1, 1}, {1, 64, 6, 6, 3, 0, 1, 1}, {8, 1, 12, 12, 3, 0, 1, 1}},
 			Admit: "effective kernel (dilate*(k-1)+1) <= h+2*pad and <= w+2*pad, stride, dilate >= 1. Single GPU only (SelectGPU panics)",
 			Adm: func(p []int, c class) bool {
 				ek := p[7]*(p[4]-1) + 1
@@ -558,12 +557,7 @@ func workloads() []*workload {
 			},
 			Cost:       func(p []int) int { return p[0] * p[1] * p[2] * p[3] * p[4] * p[4] * 30 },
 			PlainMulti: false, Splits: false, UnifiedMem: true, TimingList: tlNone, Oracle: oCrossVer,
-			Quar: func(p []int, c class) string {
-				if p[2] != p[3] {
-					return "non-square-input"
-				}
-				return ""
-			},
+			Shapes2D: [][]int{{1, 64, 6, 6, 3, 0, 1, 1}, {1, 40, 5, 7, 3, 0, 1, 1}, {8, 1, 12, 12, 3, 0, 1, 1}, {2, 16, 10, 10, 3, 1, 1, 1}}, // 8x8 groups over (fields*batch) x (k*k*C): 2x72, 2x45, 100x2, 25x18
 			Build: func(d *driver.Driver, a arch.Type, p []int) benchmarks.Benchmark {
 				b := im2col.NewBenchmark(d)
 				b.N, b.C, b.H, b.W = p[0], p[1], p[2], p[3]
